@@ -97,6 +97,23 @@ var exprs = []string{"[t for h, *t in d]", "{k: v for k, *v in d}", "[(a, b, c, 
 var singles = []string{"x += 1\n", "x[i] += y\n", "x.y -= 2\n", "a, *b = c; b += [1]\n", "first, *rest = [1, 2, 3]\n", "for p, *q in r:\n    q += p\n\n", "[a, *b] = c\n", "x[0][1].z *= 3\n",
 	"x = 1\n", "print(x)\n", "def f(a, b=2):\n    return a + b\n\n", "for i in range(3):\n    pass\n\n", "import os\n", "class C(B):\n    x = 1\n    def m(self):\n        return self.x\n\n", "a, *b = c\n"}
 
+// reindent rewrites the leading 4-space indentation units of generated
+// programs into another unit, so that concurrently compiled sources use
+// different columns for the same nesting depth.
+func reindent(src, unit string) string {
+	lines := strings.Split(src, "\n")
+	for i, l := range lines {
+		n := 0
+		for strings.HasPrefix(l[n*4:], "    ") {
+			n++
+		}
+		if n > 0 {
+			lines[i] = strings.Repeat(unit, n) + l[n*4:]
+		}
+	}
+	return strings.Join(lines, "\n")
+}
+
 func (Engine) Gen(seed uint64, idx int, tier string) interface{} {
 	loadCorpus()
 	r := simrt.NewRand(simrt.Mix(seed, 0x18, uint64(idx)))
@@ -139,6 +156,11 @@ func (Engine) Gen(seed uint64, idx int, tier string) interface{} {
 			} else {
 				sc.Sources = append(sc.Sources, Source{Name: "<single>", Src: singles[r.Intn(len(singles))]})
 			}
+		}
+	}
+	for i := range sc.Sources {
+		if sc.Sources[i].Src != "" && !strings.Contains(sc.Sources[i].Src, "\"\"\"") && r.Chance(1, 2) {
+			sc.Sources[i].Src = reindent(sc.Sources[i].Src, []string{"\t", " ", "  ", "        ", "   "}[r.Intn(5)])
 		}
 	}
 	nt := 1 + r.Intn(4)
